@@ -1,7 +1,7 @@
 From Coq Require Import List ZArith NArith Bool Lia Arith.
 Import ListNotations.
-From DD Require Import Base.PyStr Base.Value Base.ValueFacts Path.PathModel Diff.Tree Diff.DiffModel Diff.DiffFacts.
-From DD Require Import Dist.DistModel.
+From DD Require Import Base.PyStr Base.Value Base.ValueFacts Path.PathModel Diff.Tree Diff.DiffModel Diff.DiffFacts Diff.DiffFaithful.
+From DD Require Import Dist.DistModel Dist.DistProofs Dist.DistDiffModel.
 
 (* item lengths of the values an entry reports *)
 Definition cnt_o (o : option value) : nat := match o with Some v => count v | None => 0 end.
@@ -17,10 +17,11 @@ Definition sumc (xs : list value) : nat := fold_right (fun x n => count x + n) 0
 
 Lemma private_key_same k : DiffModel.private_key k = DistModel.private_key k.
 Proof.
-  destruct k as [| | | |s|]; try reflexivity. cbn.
-  destruct s as [|c1 [|c2 r]]; cbn; try reflexivity.
-  - rewrite andb_false_r. reflexivity.
-  - rewrite andb_true_r. rewrite (N.eqb_sym 95 c1), (N.eqb_sym 95 c2). reflexivity.
+  destruct k as [| | | |s|]; try reflexivity.
+  unfold DiffModel.private_key, DistModel.private_key.
+  destruct s as [|c1 [|c2 r]]; cbn [is_prefix]; try reflexivity.
+  - apply andb_false_r.
+  - rewrite andb_true_r, (N.eqb_sym 95 c1), (N.eqb_sym 95 c2). reflexivity.
 Qed.
 
 Section W.
@@ -50,3 +51,302 @@ Proof.
              end; cbn; try lia;
       try (apply (report_w KValue p1 p2 (Some (VAtom _)) (Some (VAtom _)) _)).
 Qed.
+
+Lemma removed_from_w xs : forall i p1 p2,
+  w1 (removed_from skip xs i p1 p2) <= sumc xs /\ w2 (removed_from skip xs i p1 p2) = 0.
+Proof.
+  induction xs as [|x r IH]; intros i p1 p2; cbn [removed_from]; [cbn; lia|].
+  rewrite w1_app, w2_app. destruct (IH (S i) p1 p2) as [A B].
+  destruct (report_w KIterRem (snoc p1 (PIdx i)) (snoc p2 (PIdx i)) (Some x) None None) as [C D].
+  cbn [cnt_o] in *. unfold sumc in *. cbn [fold_right]. lia.
+Qed.
+
+Lemma added_from_w ys : forall j p1 p2,
+  w1 (added_from skip ys j p1 p2) = 0 /\ w2 (added_from skip ys j p1 p2) <= sumc ys.
+Proof.
+  induction ys as [|y r IH]; intros j p1 p2; cbn [added_from]; [cbn; lia|].
+  rewrite w1_app, w2_app. destruct (IH (S j) p1 p2) as [A B].
+  destruct (report_w KIterAdd (snoc p1 (PIdx j)) (snoc p2 (PIdx j)) None (Some y) None) as [C D].
+  cbn [cnt_o] in *. unfold sumc in *. cbn [fold_right]. lia.
+Qed.
+
+Definition WB (t1 : value) : Prop :=
+  forall t2 p1 p2, wf t1 = true -> wf t2 = true ->
+    w1 (fst (diff t1 t2 p1 p2)) <= count t1 /\ w2 (fst (diff t1 t2 p1 p2)) <= count t2.
+
+Lemma go_list_w xs : Forall WB xs -> forall ys i p1 p2,
+  forallb wf xs = true -> forallb wf ys = true ->
+  w1 (fst (go_list skip diff p1 p2 xs ys i)) <= sumc xs /\
+  w2 (fst (go_list skip diff p1 p2 xs ys i)) <= sumc ys.
+Proof.
+  induction 1 as [|x xs Hx _ IH]; intros ys i p1 p2 W1 W2.
+  - cbn [go_list fst]. destruct (added_from_w ys i p1 p2). cbn. lia.
+  - destruct ys as [|y ys].
+    + cbn [go_list fst]. destruct (removed_from_w (x :: xs) i p1 p2). cbn [sumc fold_right] in *. lia.
+    + cbn [go_list]. unfold app2. cbn [fst]. rewrite w1_app, w2_app.
+      cbn [forallb] in W1, W2. apply andb_prop in W1. destruct W1 as [Wx W1].
+      apply andb_prop in W2. destruct W2 as [Wy W2].
+      destruct (Hx y (snoc p1 (PIdx i)) (snoc p2 (PIdx i)) Wx Wy) as [A B].
+      destruct (IH ys (S i) p1 p2 W1 W2) as [C D].
+      unfold sumc in *. cbn [fold_right]. lia.
+Qed.
+
+Lemma seq_body_w xs ys p1 p2 : Forall WB xs ->
+  forallb wf xs = true -> forallb wf ys = true ->
+  w1 (fst (seq_body hatom udiff ops skip excl c xs ys p1 p2)) <= sumc xs /\
+  w2 (fst (seq_body hatom udiff ops skip excl c xs ys p1 p2)) <= sumc ys.
+Proof.
+  intros H W1 W2. unfold seq_body. rewrite Hzip. cbn [negb andb]. apply go_list_w; assumption.
+Qed.
+
+(* sets *)
+Lemma first_per_hash_length l : forall seen, length (first_per_hash hatom l seen) <= length l.
+Proof.
+  induction l as [|a r IH]; intros seen; cbn [first_per_hash]; [lia|].
+  destruct (existsb _ seen); cbn [length].
+  - specialize (IH seen). lia.
+  - specialize (IH (hatom a :: seen)). lia.
+Qed.
+
+Lemma set_side_w (k : rkind) (f : atom -> bool) l p1 p2 :
+  w1 (flat_map (fun y => if f y then [] else report_set skip k y p1 p2) l) <= length l /\
+  w2 (flat_map (fun y => if f y then [] else report_set skip k y p1 p2) l) <= length l.
+Proof.
+  induction l as [|a r IH]; cbn [flat_map]; [cbn; lia|].
+  rewrite w1_app, w2_app. destruct IH as [A B]. cbn [length].
+  assert (w1 (if f a then [] else report_set skip k a p1 p2) <= 1 /\
+          w2 (if f a then [] else report_set skip k a p1 p2) <= 1).
+  { destruct (f a); [cbn; lia|]. unfold report_set. destruct (skip p1); [cbn; lia|].
+    destruct k; cbn; lia. }
+  lia.
+Qed.
+
+Lemma diff_set_w xs ys p1 p2 :
+  w1 (diff_set hatom skip xs ys p1 p2) <= length xs /\ w2 (diff_set hatom skip xs ys p1 p2) <= length ys.
+Proof.
+  unfold diff_set. rewrite w1_app, w2_app.
+  assert (A1 : w1 (flat_map (fun y => if existsb (pystr_eqb (hatom y)) (map hatom xs) then []
+                       else report_set skip KSetAdd y p1 p2) (first_per_hash hatom ys [])) = 0).
+  { induction (first_per_hash hatom ys []) as [|a r IH]; [reflexivity|]. cbn [flat_map]. rewrite w1_app, IH.
+    destruct (existsb _ _); [reflexivity|]. unfold report_set. destruct (skip p1); reflexivity. }
+  assert (A2 : w2 (flat_map (fun x => if existsb (pystr_eqb (hatom x)) (map hatom ys) then []
+                       else report_set skip KSetRem x p1 p2) (first_per_hash hatom xs [])) = 0).
+  { induction (first_per_hash hatom xs []) as [|a r IH]; [reflexivity|]. cbn [flat_map]. rewrite w2_app, IH.
+    destruct (existsb _ _); [reflexivity|]. unfold report_set. destruct (skip p1); reflexivity. }
+  pose proof (first_per_hash_length ys []) as Ly. pose proof (first_per_hash_length xs []) as Lx.
+  destruct (set_side_w KSetAdd (fun y => existsb (pystr_eqb (hatom y)) (map hatom xs)) (first_per_hash hatom ys []) p1 p2) as [_ B2].
+  destruct (set_side_w KSetRem (fun x => existsb (pystr_eqb (hatom x)) (map hatom ys)) (first_per_hash hatom xs []) p1 p2) as [B1 _].
+  lia.
+Qed.
+
+(* ---- dictionaries ---- *)
+Definition sumf {A} (f : A -> nat) (l : list A) : nat := fold_right (fun x n => f x + n) 0 l.
+
+Lemma sumf_le {A} (f g : A -> nat) l : (forall x, In x l -> f x <= g x) -> sumf f l <= sumf g l.
+Proof.
+  induction l as [|x r IH]; intros H; cbn; [lia|].
+  pose proof (H x (or_introl eq_refl)). assert (sumf f r <= sumf g r) by (apply IH; intros y Hy; apply H; right; exact Hy).
+  unfold sumf in *. lia.
+Qed.
+Lemma sumf_add {A} (f g : A -> nat) l : sumf f l + sumf g l = sumf (fun x => f x + g x) l.
+Proof. induction l as [|x r IH]; cbn; [reflexivity|]. unfold sumf in *. lia. Qed.
+Lemma sumf_le_plus {A} (f g : A -> nat) l x0 d :
+  In x0 l -> (forall x, In x l -> f x <= g x) -> f x0 + d <= g x0 -> sumf f l + d <= sumf g l.
+Proof.
+  induction l as [|x r IH]; intros Hin H Hd; [destruct Hin|].
+  cbn. destruct Hin as [->|Hin].
+  - assert (sumf f r <= sumf g r) by (apply sumf_le; intros y Hy; apply H; right; exact Hy). unfold sumf in *. lia.
+  - pose proof (H x (or_introl eq_refl)).
+    assert (sumf f r + d <= sumf g r) by (apply IH; [exact Hin | intros y Hy; apply H; right; exact Hy | exact Hd]).
+    unfold sumf in *. lia.
+Qed.
+
+Notation keep := (keep_key c).
+Definition wkeep (kv : atom * value) : nat := if keep (fst kv) then count (snd kv) else 0.
+
+Lemma keep_private k : keep k = negb (DistModel.private_key k).
+Proof. unfold keep_key. rewrite Hpriv, private_key_same. reflexivity. Qed.
+
+Lemma count_dict_keep kvs : S (sumf wkeep kvs) <= count (VDict kvs).
+Proof.
+  cbn [count]. apply le_n_S. induction kvs as [|[k v] r IH]; cbn [sumf fold_right fst snd]; [lia|].
+  unfold wkeep at 1. cbn [fst snd]. rewrite keep_private. unfold sumf in IH.
+  destruct (DistModel.private_key k); cbn [negb]; lia.
+Qed.
+
+Lemma find_mem k l k' : find (py_eq k) l = Some k' -> mem_atom k l = true /\ py_eq k k' = true /\ In k' l.
+Proof.
+  intros H. apply find_some in H. destruct H as [Hin E]. split; [|split; assumption].
+  apply mem_atom_In. exists k'. split; assumption.
+Qed.
+
+Lemma wf_dict_values kvs k v : wf (VDict kvs) = true -> In (k, v) kvs -> wf v = true.
+Proof.
+  cbn [wf]. intros H Hin. apply andb_prop in H. destruct H as [_ H].
+  rewrite forallb_forall in H. apply (H (k, v) Hin).
+Qed.
+Lemma wf_dict_nodup kvs : wf (VDict kvs) = true -> nodup_atoms (map fst kvs) = true.
+Proof. cbn [wf]. intros H. apply andb_prop in H. apply H. Qed.
+
+Section Dict.
+Variables kvs1 kvs2 : list (atom * value).
+Variables p1 p2 : path.
+Hypothesis W1 : wf (VDict kvs1) = true.
+Hypothesis W2 : wf (VDict kvs2) = true.
+Let K1 := keys_of c kvs1.
+Let K2 := keys_of c kvs2.
+
+Lemma removed_w l : (forall kv, In kv l -> In kv kvs1) ->
+  let removed := flat_map (fun k => if mem_atom k K2 then []
+       else report skip KDictRem (snoc p1 (PKey k)) (snoc p2 (PKey k)) (assoc k kvs1) None None) (keys_of c l) in
+  w1 removed <= sumf (fun kv => if keep (fst kv) && negb (mem_atom (fst kv) K2) then count (snd kv) else 0) l
+  /\ w2 removed = 0.
+Proof.
+  induction l as [|[k v] r IH]; intros Hin; cbn zeta in *; [cbn; lia|].
+  unfold keys_of in *. cbn [map filter fst]. cbn [sumf fold_right fst snd].
+  destruct (IH (fun kv H => Hin kv (or_intror H))) as [A B]. fold (sumf (fun kv => if keep (fst kv) && negb (mem_atom (fst kv) K2) then count (snd kv) else 0) r).
+  destruct (keep k); cbn [andb flat_map]; [|unfold sumf in *; lia].
+  rewrite w1_app, w2_app.
+  destruct (mem_atom k K2); cbn [negb]; [cbn; unfold sumf in *; lia|].
+  assert (E : assoc k kvs1 = Some v).
+  { eapply assoc_nodup; [apply wf_dict_nodup; exact W1 | apply Hin; left; reflexivity | apply py_eq_refl]. }
+  rewrite E.
+  destruct (report_w KDictRem (snoc p1 (PKey k)) (snoc p2 (PKey k)) (Some v) None None) as [C D].
+  cbn [cnt_o] in *. unfold sumf in *. lia.
+Qed.
+
+Lemma added_w l : (forall kv, In kv l -> In kv kvs2) ->
+  let added := flat_map (fun k => if mem_atom k K1 then []
+       else report skip KDictAdd (snoc p1 (PKey k)) (snoc p2 (PKey k)) None (assoc k kvs2) None) (keys_of c l) in
+  w2 added <= sumf (fun kv => if keep (fst kv) && negb (mem_atom (fst kv) K1) then count (snd kv) else 0) l
+  /\ w1 added = 0.
+Proof.
+  induction l as [|[k v] r IH]; intros Hin; cbn zeta in *; [cbn; lia|].
+  unfold keys_of in *. cbn [map filter fst]. cbn [sumf fold_right fst snd].
+  destruct (IH (fun kv H => Hin kv (or_intror H))) as [A B]. fold (sumf (fun kv => if keep (fst kv) && negb (mem_atom (fst kv) K1) then count (snd kv) else 0) r).
+  destruct (keep k); cbn [andb flat_map]; [|unfold sumf in *; lia].
+  rewrite w1_app, w2_app.
+  destruct (mem_atom k K1); cbn [negb]; [cbn; unfold sumf in *; lia|].
+  assert (E : assoc k kvs2 = Some v).
+  { eapply assoc_nodup; [apply wf_dict_nodup; exact W2 | apply Hin; left; reflexivity | apply py_eq_refl]. }
+  rewrite E.
+  destruct (report_w KDictAdd (snoc p1 (PKey k)) (snoc p2 (PKey k)) None (Some v) None) as [C D].
+  cbn [cnt_o] in *. unfold sumf in *. lia.
+Qed.
+
+Lemma common_w1 l : Forall (fun kv => WB (snd kv)) l -> (forall kv, In kv l -> In kv kvs1) ->
+  w1 (fst (go_common c diff kvs2 K2 p1 p2 l)) <=
+  sumf (fun kv => if keep (fst kv) && mem_atom (fst kv) K2 then count (snd kv) else 0) l.
+Proof.
+  induction 1 as [|[k v1] r Hkv _ IH]; intros Hin; [cbn; lia|].
+  cbn [go_common sumf fold_right fst snd].
+  specialize (IH (fun kv H => Hin kv (or_intror H))).
+  fold (sumf (fun kv => if keep (fst kv) && mem_atom (fst kv) K2 then count (snd kv) else 0) r).
+  destruct (keep k); cbn [andb]; [|unfold sumf in *; lia].
+  destruct (find (py_eq k) K2) as [k'|] eqn:F; [|unfold sumf in *; lia].
+  destruct (find_mem _ _ _ F) as [M _]. rewrite M.
+  destruct (assoc k' kvs2) as [v2|] eqn:A; [|unfold sumf in *; lia].
+  unfold app2. cbn [fst]. rewrite w1_app.
+  apply assoc_In in A. destruct A as [k'' [Hk'' _]].
+  assert (Wv1 : wf v1 = true) by (eapply wf_dict_values; [exact W1 | apply Hin; left; reflexivity]).
+  assert (Wv2 : wf v2 = true) by (eapply wf_dict_values; [exact W2 | exact Hk'']).
+  cbn [snd] in Hkv. destruct (Hkv v2 (snoc p1 (PKey k')) (snoc p2 (PKey k')) Wv1 Wv2) as [B _].
+  unfold sumf in *. lia.
+Qed.
+
+Definition S2 (l : list (atom * value)) : nat :=
+  sumf (fun kv => if keep (fst kv) && mem_atom (fst kv) (map fst l) then count (snd kv) else 0) kvs2.
+
+Lemma common_w2 l : Forall (fun kv => WB (snd kv)) l -> (forall kv, In kv l -> In kv kvs1) ->
+  nodup_atoms (map fst l) = true ->
+  w2 (fst (go_common c diff kvs2 K2 p1 p2 l)) <= S2 l.
+Proof.
+  induction 1 as [|[k v1] r Hkv _ IH]; intros Hin N; [cbn; lia|].
+  cbn [map fst nodup_atoms] in N. apply andb_prop in N. destruct N as [N0 N]. apply negb_true_iff in N0.
+  specialize (IH (fun kv H => Hin kv (or_intror H)) N).
+  assert (Mono : forall kv, In kv kvs2 ->
+            (if keep (fst kv) && mem_atom (fst kv) (map fst r) then count (snd kv) else 0) <=
+            (if keep (fst kv) && mem_atom (fst kv) (map fst ((k, v1) :: r)) then count (snd kv) else 0)).
+  { intros kv _. cbn [map fst]. unfold mem_atom at 2. cbn [existsb]. fold (mem_atom (fst kv) (map fst r)).
+    destruct (keep (fst kv)); cbn [andb]; [|lia].
+    destruct (mem_atom (fst kv) (map fst r)); [rewrite orb_true_r; lia|]. destruct (py_eq (fst kv) k); cbn; lia. }
+  assert (Weak : S2 r <= S2 ((k, v1) :: r)) by (apply sumf_le; exact Mono).
+  cbn [go_common].
+  destruct (keep k) eqn:Kk; [|lia].
+  destruct (find (py_eq k) K2) as [k'|] eqn:F; [|lia].
+  destruct (find_mem _ _ _ F) as [_ [E _]].
+  destruct (assoc k' kvs2) as [v2|] eqn:A; [|lia].
+  unfold app2. cbn [fst]. rewrite w2_app.
+  apply assoc_In in A. destruct A as [k'' [Hk'' E'']].
+  assert (Wv1 : wf v1 = true) by (eapply wf_dict_values; [exact W1 | apply Hin; left; reflexivity]).
+  assert (Wv2 : wf v2 = true) by (eapply wf_dict_values; [exact W2 | exact Hk'']).
+  cbn [snd] in Hkv. destruct (Hkv v2 (snoc p1 (PKey k')) (snoc p2 (PKey k')) Wv1 Wv2) as [_ B].
+  assert (Ekk : py_eq k'' k = true).
+  { eapply py_eq_trans; [exact E''|]. rewrite py_eq_sym. exact E. }
+  assert (Step : S2 r + count v2 <= S2 ((k, v1) :: r)).
+  { unfold S2. apply (sumf_le_plus _ _ kvs2 (k'', v2)); [exact Hk'' | exact Mono |].
+    cbn [fst snd map]. 
+    assert (Mr : mem_atom k'' (map fst r) = false).
+    { destruct (mem_atom k'' (map fst r)) eqn:M; [|reflexivity]. exfalso.
+      assert (mem_atom k (map fst r) = true).
+      { eapply mem_atom_py_eq; [|exact M]. rewrite py_eq_sym. exact Ekk. }
+      congruence. }
+    rewrite Mr. rewrite andb_false_r.
+    assert (Kk'' : keep k'' = true) by (rewrite (keep_key_py_eq c k'' k Ekk); exact Kk).
+    rewrite Kk''. unfold mem_atom. cbn [existsb]. rewrite Ekk. cbn. lia. }
+  lia.
+Qed.
+
+Lemma dict_body_w : Forall (fun kv => WB (snd kv)) kvs1 ->
+  w1 (fst (dict_body hatom udiff ops skip excl c kvs1 kvs2 p1 p2)) <= count (VDict kvs1) /\
+  w2 (fst (dict_body hatom udiff ops skip excl c kvs1 kvs2 p1 p2)) <= count (VDict kvs2).
+Proof.
+  intros H. unfold dict_body. fold K1 K2.
+  destruct (dict_shortcut excl c K1 K2 p1).
+  - cbn [fst]. apply (report_w KValue p1 p2 (Some (VDict kvs1)) (Some (VDict kvs2)) None).
+  - cbn [fst]. rewrite !w1_app, !w2_app.
+    destruct (removed_w kvs1 (fun kv Hkv => Hkv)) as [R1 R2].
+    destruct (added_w kvs2 (fun kv Hkv => Hkv)) as [A2 A1].
+    pose proof (common_w1 kvs1 H (fun kv Hkv => Hkv)) as C1.
+    pose proof (common_w2 kvs1 H (fun kv Hkv => Hkv) (wf_dict_nodup _ W1)) as C2.
+    cbn zeta in R1, R2, A1, A2. change (keys_of c kvs2) with K2 in A1, A2. change (keys_of c kvs1) with K1 in R1, R2.
+    pose proof (count_dict_keep kvs1) as D1. pose proof (count_dict_keep kvs2) as D2.
+    split.
+    + rewrite A1.
+      assert (sumf (fun kv => if keep (fst kv) && negb (mem_atom (fst kv) K2) then count (snd kv) else 0) kvs1 +
+              sumf (fun kv => if keep (fst kv) && mem_atom (fst kv) K2 then count (snd kv) else 0) kvs1 <= sumf wkeep kvs1).
+      { rewrite sumf_add. apply sumf_le. intros kv _. unfold wkeep.
+        destruct (keep (fst kv)); cbn [andb]; [|lia]. destruct (mem_atom (fst kv) K2); cbn; lia. }
+      lia.
+    + rewrite R2.
+      assert (sumf (fun kv => if keep (fst kv) && negb (mem_atom (fst kv) K1) then count (snd kv) else 0) kvs2 +
+              S2 kvs1 <= sumf wkeep kvs2).
+      { unfold S2. rewrite sumf_add. apply sumf_le. intros kv _. unfold wkeep.
+        destruct (keep (fst kv)) eqn:Kk; cbn [andb]; [|lia].
+        unfold K1. rewrite (mem_keys_of c kvs1 (fst kv) Kk).
+        destruct (mem_atom (fst kv) (map fst kvs1)); cbn; lia. }
+      lia.
+Qed.
+End Dict.
+
+Theorem diff_weights : forall t1, WB t1.
+Proof.
+  induction t1 as [a|xs IH|xs IH|kvs IH|xs|xs] using value_ind'; intros t2 p1 p2 Wf1 Wf2;
+    (destruct (skip p1) eqn:Hs; [rewrite diff_skip by exact Hs; cbn; lia|]);
+    (match goal with |- context [diff ?t1 t2 _ _] => destruct (ty_eqb (type_of t1) (type_of t2)) eqn:T end;
+     [|rewrite diff_type by assumption; cbn [fst];
+       match goal with |- context [report skip KType ?a ?b (Some ?x) (Some ?y) None] =>
+         apply (report_w KType a b (Some x) (Some y) None) end]).
+  all: destruct t2; try discriminate T; try (destruct a; discriminate T).
+  - rewrite diff_atom_eq by exact Hs. cbn in T. rewrite T. cbn [negb fst].
+    destruct (diff_atom_w a a0 p1 p2). cbn [count]. lia.
+  - rewrite diff_list by exact Hs. cbn [wf] in Wf1, Wf2.
+    destruct (seq_body_w xs xs0 p1 p2 IH Wf1 Wf2). cbn [count]. fold (sumc xs) (sumc xs0). lia.
+  - rewrite diff_tuple by exact Hs. cbn [wf] in Wf1, Wf2.
+    destruct (seq_body_w xs xs0 p1 p2 IH Wf1 Wf2). cbn [count]. fold (sumc xs) (sumc xs0). lia.
+  - rewrite diff_dict by exact Hs. apply dict_body_w; assumption.
+  - rewrite diff_vset by exact Hs. cbn [fst count]. destruct (diff_set_w xs xs0 p1 p2). lia.
+  - rewrite diff_vfrozen by exact Hs. cbn [fst count]. destruct (diff_set_w xs xs0 p1 p2). lia.
+Qed.
+
+End W.
